@@ -108,6 +108,9 @@ LEVEL_TEXT = ("Machine-checked theorems (Coq 8.16, closed under the global conte
               "that holds at every level below (C07_args_override_self_global) and propagate_subcommand is the table's "
               "function (C07_settings_propagate_table); Gen/BuildTables.v: the generated --help/--version arguments and help "
               "subcommand and the whole _check_help_and_version step (C07_generated_args_table, C07_help_version_table), the "
+              "order of the steps of Command::_build_self, of its argument loop, and the deprecated command-level rules "
+              "(C07_build_self_steps_table: Build.build_self composes the model's steps in the order the parts appear in "
+              "the source; C07_args_loop_table, C07_deprecated_table), the "
               "key order of mkeymap.rs append_keys (C07_arg_keys_table: Cmd.arg_keys is the table's function for every "
               "argument), the chain case-file flag -> Arg setter -> ArgSettings variant -> model field "
               "(C07_arg_flags_table), and the copies of takes_values in the C15/C16 models "
